@@ -195,7 +195,11 @@ pub fn mutate(r: &mut Rng, w: &mut Wire, m: usize) -> bool {
             let bad = *r.pick(&BAD_UTF8);
             // write at the tail or a random place inside the payload
             let k = bad.len().min(pl);
-            let pos = if r.bool() { at + len - k } else { at + 6 + r.below((pl - k + 1) as u64) as usize };
+            let pos = match r.below(3) {
+                0 => at + len - k,                               // tail
+                1 => at + 6 + r.below((pl - k + 1).min(8) as u64) as usize, // within the first octets
+                _ => at + 6 + r.below((pl - k + 1) as u64) as usize,
+            };
             w.bytes[pos..pos + k].copy_from_slice(&bad[..k]);
         }
         7 => {
